@@ -4,7 +4,7 @@
 # usage: scripts/selftest.sh [pattern]   e.g. scripts/selftest.sh c06_
 cd "$(dirname "$0")/.." || exit 2
 pat="${1:-}"
-ls mutants/*.patch | grep "$pat" | while read -r m; do
+ls mutants/*.patch mutants_refactored/*.patch | grep "$pat" | while read -r m; do
   p=$(basename "$m" | sed -E 's/^c([0-9]+)_.*/C\1/')
   echo "$m $p"
 done > /tmp/selftest.$$.list
